@@ -129,12 +129,54 @@ def _escaping_to(cg, ef, site_func, node, exc, entries):
 
 def _raise_condition(f, raise_node) -> str:
     """Identity of a raise site inside its function: the branch conditions it is taken under (local names replaced by
-    placeholders), not the message - rewording a message does not detach a known finding, changing the condition does."""
+    placeholders), not the message - rewording a message does not detach a known finding, changing the condition does.
+    Comparisons of one `len(...)` with integer constants are folded into the interval of counts they admit, so that
+    `n == 0: F & n == 1: F` and `n > 1: T` are the same condition."""
     g = cfg_of(f.node)
     n = g.node_of_stmt.get(raise_node)
     if n is None:
         return 'raise'
-    conds = sorted(f"{norm_text(t.ast, f.node, 60)}:{lab}" for t, lab in dom.guards_of(g, n) if t.kind == 'test')
+    atoms = []
+    lens = {}
+    for t, lab in dom.guards_of(g, n):
+        if t.kind != 'test':
+            continue
+        e = t.ast
+        if isinstance(e, ast.Compare) and len(e.ops) == 1 and isinstance(e.comparators[0], ast.Constant) and isinstance(e.comparators[0].value, int) \
+                and not isinstance(e.comparators[0].value, bool) and isinstance(e.left, ast.Call) and unparse(e.left.func) == 'len':
+            key = norm_text(e.left, f.node, 60)
+            lo, hi, holes = lens.setdefault(key, [0, None, set()])
+            c = e.comparators[0].value
+            op = type(e.ops[0])
+            true = lab == 'T'
+            # canonical operators in the CFG: ==, >, >=  (and their negations through the F label)
+            if op is ast.Eq:
+                if true:
+                    lens[key][0], lens[key][1] = max(lo, c), c if hi is None else min(hi, c)
+                else:
+                    holes.add(c)
+            elif op is ast.Gt:
+                if true:
+                    lens[key][0] = max(lo, c + 1)
+                else:
+                    lens[key][1] = c if hi is None else min(hi, c)
+            elif op is ast.GtE:
+                if true:
+                    lens[key][0] = max(lo, c)
+                else:
+                    lens[key][1] = c - 1 if hi is None else min(hi, c - 1)
+            else:
+                atoms.append(f"{norm_text(e, f.node, 60)}:{lab}")
+            continue
+        atoms.append(f"{norm_text(e, f.node, 60)}:{lab}")
+    for key, (lo, hi, holes) in lens.items():
+        while lo in holes:
+            lo += 1
+        while hi is not None and hi in holes:
+            hi -= 1
+        rest = sorted(h for h in holes if h > lo and (hi is None or h < hi))
+        atoms.append(f"{key} in [{lo}, {'inf' if hi is None else hi}]" + (f" minus {rest}" if rest else ''))
+    conds = sorted(atoms)
     return 'raise when ' + ' & '.join(conds) if conds else 'raise unconditionally'
 
 
@@ -556,8 +598,7 @@ def none_and_empty_guards(ctx):
                   f"`{short(x, 40)}` is dominated by `if not {lst}: raise ValueError`", key='R-DOM.none-guard|empty-matches', line=n.line)
     new = f.params[2]
     tc = dom.nodes_calling(g, lambda c: unparse(c.func) == 'self._check_child_to_be_added' and [unparse(a) for a in c.args] == [new])
-    muts = [n for n in g.stmt_nodes() if any(isinstance(c, ast.Call) and isinstance(c.func, ast.Attribute) and c.func.attr in ('remove', 'insert', 'append') and
-                                             unparse(c.func.value) == 'self._unordered_children' for e in n.exprs() for c in walk_local(e))]
+    muts = dom.list_mutation_nodes(g, 'self._unordered_children')
     res.check(bool(tc) and all(g.path_avoiding(g.entry, m, avoid=tc) is None for m in muts), 'R-DOM.none-guard', f.fq,
               "the replacement is type-checked (TypeError for a non-element) before the insertion list changes", key='R-DOM.none-guard|replace-type-check')
     ck = xe.methods.get('_check_child_to_be_added')
@@ -567,3 +608,18 @@ def none_and_empty_guards(ctx):
         for r in [n for n in g2.stmt_nodes() if n.kind == 'stmt' and isinstance(n.ast, ast.Raise) and 'TypeError' in unparse(n.ast)]:
             ok = ok or any(t.kind == 'test' and unparse(t.ast) == f"isinstance({ck.params[1]}, XMLElement)" and lab == 'F' for t, lab in dom.guards_of(g2, r))
     res.check(ok, 'R-DOM.none-guard', ck.fq if ck else xe.module.relpath, "a non-element is rejected with TypeError", key='R-DOM.none-guard|type-check-body')
+    # a caller-supplied child is not dereferenced before something has checked that it is an element
+    for fname, pidx in (('add_child', 1), ('replace_child', 2)):
+        f = xe.methods.get(fname)
+        if f is None or len(f.params) <= pidx:
+            continue
+        p = f.params[pidx]
+        g = cfg_of(f.node)
+        on = g.edge_filter_assuming({'self.xsd_check': True, 'self._xsd_check': True})
+        gates = dom.nodes_calling(g, lambda c: isinstance(c.func, ast.Attribute) and c.func.attr in ('add_element', '_check_child_to_be_added') and c.args and unparse(c.args[0]) == p)
+        derefs = [n for n in g.stmt_nodes() if any(isinstance(x, ast.Attribute) and isinstance(x.ctx, ast.Load) and isinstance(x.value, ast.Name) and x.value.id == p
+                                                   for e in n.exprs() for x in ast.walk(e)) and n not in gates]
+        bad = [n for n in derefs if g.path_avoiding(g.entry, n, avoid=gates, edge_ok=on) is not None and n in g.reachable(g.entry, edge_ok=on)]
+        res.check(not bad, 'R-DOM.none-guard', f.fq, f"under xsd_check the argument `{p}` is read (`{p}.<attr>`) only after its type was checked (add_element / _check_child_to_be_added)",
+                  fail_detail='; '.join(f"line {n.line}: {n.text()[:70]}" for n in bad[:2]) + " - a non-element (None, str) fails with an internal AttributeError here",
+                  key=f"R-DOM.none-guard|deref-before-type-check|{fname}")
